@@ -19,7 +19,7 @@
 From Coq Require Import ZArith List Bool.
 Import ListNotations.
 From Cedar Require Import Lang.Value Lang.Expr Impl.Eval Impl.TypeCheck Impl.ValidatePolicy Lang.TypeSound Proofs.TypeSoundLemmas Proofs.TypeSoundProofs
-  Proofs.PolicySoundProofs Impl.Conform Proofs.ValueProofs Proofs.ConformProofs.
+  Proofs.PolicySoundProofs Impl.Conform Proofs.ValueProofs Proofs.ConformProofs Generated.Tables Proofs.ExtSigTable.
 
 (* if the strict type checker accepts e with type t, then in every conforming environment evaluation yields a value of type t (and
    the capabilities e establishes when true), or fails with one of the three allowed error kinds: never a type error, an unknown
@@ -120,6 +120,20 @@ Proof. exact validated_and_conforming_never_type_errors_wf. Qed.
 (* the hypotheses are satisfiable together: a concrete schema, store and request (Proofs/ConformProofs.v, Part 5) *)
 Definition C15_end_to_end_nonvacuous := ex_never_type_errors.
 
+
+(* TRANSLATED TABLE: the signatures the soundness theorems are about are the ones the code declares.  Generated/Tables.tc_ext_table is
+   read off x/exp/schema/validate/ext_funcs.go by the translator on every run; for EVERY function name the model's ext_sig answers what
+   a lookup in that table answers, and the typechecker and the evaluator (internal/extensions) declare the same functions with the
+   same arities (Proofs/ExtSigTable.v). *)
+Theorem C15_ext_signatures_are_the_codes : forall name, ext_sig name = table_sig tc_ext_table name.
+Proof. exact ext_sig_is_generated_table. Qed.
+
+Theorem C15_ext_functions_same_as_evaluator :
+  map (fun e => (fst e, (Z.of_nat (List.length (snd (fst (snd e)))), negb (fst (fst (snd e)))))) tc_ext_table = ext_table.
+Proof. exact typechecker_and_evaluator_agree_on_functions. Qed.
+
+Print Assumptions C15_ext_signatures_are_the_codes.
+Print Assumptions C15_ext_functions_same_as_evaluator.
 Print Assumptions C15_check_value_exact.
 Print Assumptions C15_check_entities_sound.
 Print Assumptions C15_check_action_entity_exact.
